@@ -94,7 +94,7 @@ static char * pipecmd_format_arg (pipecmd_t e, const char *arg)
 {
     char buf [64];
     const char *p;
-    char *str = NULL;
+    char *str = Strdup ("");
 
     p = arg;
     while (*p != '\0') {
